@@ -123,12 +123,42 @@ class Env:
                 continue
             if elem and mode == "len":
                 continue
+            if d[0] == site_pos[0] and site_pos[1] == 10**6 and self._borrow_feeds_site_call(l, d, site_pos[0]):
+                continue      # the re-borrow made for the call at the site itself mutates nothing before the site
             n = min(len(dpath), len(rpath))
             if dpath[:n] != rpath[:n]:
                 continue
             if self.path(read_pos, d) and self._path_not_via(d, site_pos, read_pos):
                 return False
         return True
+
+    def _borrow_feeds_site_call(self, l, d, bb):
+        b = self.b
+        t = b.term(bb)
+        if t["k"] != "call" or d[1] == 10**6:
+            return False
+        st = b.blocks[bb]["st"]
+        # d[1] is an index into the *assign* statements of the block as enumerated by Body.stmts()
+        if d[1] >= len(st):
+            return False
+        s = st[d[1]]
+        rv = s.get("rv")
+        if not rv or rv["k"] != "ref" or not rv.get("mut") or s["lhs"]["p"]:
+            return False
+        tmp = s["lhs"]["l"]
+        args = set()
+        for a in t["args"]:
+            p = op_place(a)
+            if p is not None and not p["p"]:
+                args.add(p["l"])
+        # through one more re-borrow (two-phase borrows)
+        if tmp in args:
+            return True
+        for s2 in st[d[1] + 1:]:
+            rv2 = s2.get("rv")
+            if rv2 and rv2["k"] == "ref" and rv2["p"]["l"] == tmp and s2["lhs"]["l"] in args:
+                return True
+        return False
 
     def _path_not_via(self, d, site, read):
         """is there a path from position d to position site that does not execute position `read` in between?"""
@@ -779,8 +809,11 @@ def static_range(t):
 
 
 def field_path(p):
+    """leading field names of a place, looking through dereferences (memory reached through the local)."""
     out = []
     for e in p["p"]:
+        if e == "*":
+            continue
         if isinstance(e, dict) and "f" in e:
             out.append(e["n"])
         else:
